@@ -11,6 +11,15 @@ split -n l/$n -d $tmp/list $tmp/part.
 for part in $tmp/part.*; do
   ( while read d; do
       id=$(basename $(dirname $d)); k=$(basename $d)
+      # a change that an unguarded repair has since made harmless (meta.json:
+      # neutralised_by; its own demonstration passes with the patch) is listed, not run
+      neu=$(python3 -c "import json;print(json.load(open('$d/meta.json')).get('neutralised_by','')[:60])")
+      if [ -n "$neu" ]; then
+        s=$(python3 -c "import json;print(json.load(open('$d/meta.json'))['summary'].replace('|','/').replace('\n',' ')[:170])")
+        echo "| $id | $k | no longer breaks the property: neutralised by $neu... | $s |" >> $part.out
+        echo "$id $k neutralised"
+        continue
+      fi
       r=$(tools/seeded_check.sh $id $d/patch.diff 2>&1 | grep -E "^exit=" | tail -1)
       case "$r" in exit=1) v="caught (VIOLATION)";; exit=0) v="MISSED";; *) v="inconclusive ($r)";; esac
       # a change that belongs to a sibling property (meta.json: sibling_check)
